@@ -130,6 +130,8 @@ class Summaries:
         repo, ext, resolved = self.site_callees(fn, site)
         if cancel and any(e in SHIELD_EXTERNAL for e in ext):
             return False
+        if site.kind == "with_exit" and self._is_lock_expr(fn, site.node.context_expr):
+            return False  # releasing a lock never suspends (asyncio.Lock / FairLock / trio locks: synchronous release)
         if not resolved:
             return True
         flag = False
@@ -151,6 +153,11 @@ class Summaries:
                 elif table.get(h, False):
                     flag = True
         return flag
+
+    def _is_lock_expr(self, fn: FunctionInfo, ce: ast.AST) -> bool:
+        ts = self.typer.expr_types(fn, ce)
+        names = {"ILock", "Lock", "FairLock", "FastFIFOLock"}
+        return bool(ts) and all((t.kind == "repo" and t.ref.name in names) or (t.kind == "ext" and str(t.ref).split(".")[-1] in names) for t in ts)
 
     def _fix(self, cancel: bool) -> dict[FunctionInfo, bool]:
         table: dict[FunctionInfo, bool] = {}
